@@ -97,3 +97,7 @@ func VerifC01_DaemonSetUpgradeBatch() {
 		verifrt.Assert(cur <= int(ctx.DesiredPartition.IntVal), "C01.daemonset.upgrade.skipOnlyIfAlreadyThere")
 	}
 }
+
+// C11: readiness is judged against the pods the batch really calls for: the batch context's targets equal the
+// reference computed from the plan (obligations of the C01 batch-context harness of this workload kind).
+func VerifC11_DaemonSetReadinessTarget() { VerifC01_DaemonSetBatchContext() }
